@@ -13,6 +13,7 @@
 From Coq Require Import List Arith NArith Bool.
 Import ListNotations.
 Require Import Aiuti.Cache Aiuti.CacheLemmas Aiuti.CacheInv Aiuti.CacheMon Aiuti.CacheOut.
+Require Import Aiuti.CacheMonSpec Aiuti.CacheUnfixed.
 
 (* For EVERY event list the model accepts (any number of loops, callers, keys, any interleaving,
    any loop life cycle, cancellations, failures, clock advances) and every caller c whose call has
@@ -117,6 +118,93 @@ Theorem ok_C06_sound_prefix :
   forall nloops tbl tr s, run (init nloops tbl) tr = Some s -> ok_C06 tbl tr = true.
 Proof. exact ok_C06_sound_run. Qed.
 Print Assumptions ok_C06_sound_prefix.
+
+(* CONVERSE direction: what "the monitor accepted a trace" means for that trace ALONE (no model).
+   The check evaluates ok_C06 on the trace observed from the REAL code, so every accepted
+   implementation trace satisfies the following.  (tbl: caller id -> (loop, key).)
+
+   No caller ever sees an exception of the cache's own bookkeeping or of another loop's shutdown
+   (kind >= 3 = LibExc), the driver classified every event, no proxy wait ended with an exception. *)
+Theorem ok_C06_implies_no_lib_exc :
+  forall tbl tr, ok_C06 tbl tr = true ->
+  (forall c kind p t, In (Done c kind p t) tr -> kind <= 2)
+  /\ (forall code, ~ In (Bad code) tr) /\ (forall t c r, In (Proxy t c r) tr -> r < 3).
+Proof.
+  exact (fun tbl tr H => conj (ok_C06_no_lib_exc tbl tr H)
+                              (conj (ok_C06_no_bad tbl tr H) (ok_C06_proxy_ok tbl tr H))).
+Qed.
+Print Assumptions ok_C06_implies_no_lib_exc.
+
+(* Exactly one outcome per call. *)
+Theorem ok_C06_implies_once :
+  forall tbl tr, ok_C06 tbl tr = true ->
+  forall pre c k1 p1 t1 mid k2 p2 t2 post,
+    tr = pre ++ Done c k1 p1 t1 :: mid ++ Done c k2 p2 t2 :: post -> False.
+Proof. exact ok_C06_once. Qed.
+Print Assumptions ok_C06_implies_once.
+
+(* A returned value v is the result of an invocation for the caller's key whose latest start and
+   successful end lie before the return. *)
+Theorem ok_C06_implies_ret :
+  forall tbl tr, ok_C06 tbl tr = true ->
+  forall pre c v t post, tr = pre ++ Done c 0 v t :: post ->
+    exists q1 c' t1 q2 t2 q3,
+      pre = q1 ++ IStart v c' t1 :: q2 ++ IEnd v 0 t2 :: q3 /\
+      (forall c1 t', ~ In (IStart v c1 t') q2) /\
+      (forall c1 t', ~ In (IStart v c1 t') q3) /\
+      (forall r' t', ~ In (IEnd v r' t') q3) /\
+      tbl_key tbl c' = tbl_key tbl c.
+Proof. exact ok_C06_ret. Qed.
+Print Assumptions ok_C06_implies_ret.
+
+(* A user exception i delivered to caller c was raised by an invocation that THIS caller performed
+   (started by c, ended with a raise, both before). *)
+Theorem ok_C06_implies_own_exception :
+  forall tbl tr, ok_C06 tbl tr = true ->
+  forall pre c i t post, tr = pre ++ Done c 1 i t :: post ->
+    exists q1 t1 q2 t2 q3,
+      pre = q1 ++ IStart i c t1 :: q2 ++ IEnd i 1 t2 :: q3 /\
+      (forall c1 t', ~ In (IStart i c1 t') q2) /\
+      (forall c1 t', ~ In (IStart i c1 t') q3) /\
+      (forall r' t', ~ In (IEnd i r' t') q3).
+Proof. exact ok_C06_userexc. Qed.
+Print Assumptions ok_C06_implies_own_exception.
+
+(* A call ends Cancelled only if the environment cancelled this very caller before. *)
+Theorem ok_C06_implies_own_cancel :
+  forall tbl tr, ok_C06 tbl tr = true ->
+  forall pre c p t post, tr = pre ++ Done c 2 p t :: post -> exists t1, In (Cancel c t1) pre.
+Proof. exact ok_C06_cancelled. Qed.
+Print Assumptions ok_C06_implies_own_cancel.
+
+(* The defects F1 and F2/F2b, kept documented in Coq (CacheUnfixed.stepU fix1 fix2 differs from the
+   model only in the steps the repairs changed; stepU true true is the model).  Witnesses = the
+   traces recorded from /repo with the fix commits reverted, scenarios F1 and F2 of DESIGN 6.
+   Without fac37d0: caller 2 ends with the bookkeeping KeyError (Done 2 3 0), the repaired model
+   rejects the trace and so do the monitors. *)
+Theorem keyerror_refuted_without_fix1 :
+  acceptsU false true 3 tbl_F1 tr_F1 = true
+  /\ In (Done 2 3 0 80%N) tr_F1
+  /\ accepts 3 tbl_F1 tr_F1 = false
+  /\ ok_C06 tbl_F1 tr_F1 = false /\ ok_C01 tbl_F1 tr_F1 = false.
+Proof. exact keyerror_refuted_without_fix1_l. Qed.
+Print Assumptions keyerror_refuted_without_fix1.
+
+(* Without a5d23b7 / 205824d: caller 1, waiting cross-loop while loop 0 shuts down, ends Cancelled
+   although no Cancel 1 occurs anywhere in the trace. *)
+Theorem foreign_cancel_refuted_without_fix2 :
+  acceptsU true false 2 tbl_F2 tr_F2 = true
+  /\ In (Done 1 2 0 200%N) tr_F2 /\ (forall t, ~ In (Cancel 1 t) tr_F2)
+  /\ accepts 2 tbl_F2 tr_F2 = false
+  /\ ok_C06 tbl_F2 tr_F2 = false.
+Proof. exact foreign_cancel_refuted_without_fix2_l. Qed.
+Print Assumptions foreign_cancel_refuted_without_fix2.
+
+(* with both repairs the variant is the model itself *)
+Theorem unfixed_variant_is_model_when_fixed :
+  forall tr u, kerr u = [] -> runU true true u tr = lift [] (run (ust u) tr).
+Proof. exact runU_fixed. Qed.
+Print Assumptions unfixed_variant_is_model_when_fixed.
 
 (* ---- non-vacuity ---- *)
 (* one loop, two callers of key 0: caller 0 computes and the function raises; nothing is cached,
